@@ -152,6 +152,38 @@ theorem advanceB_eq (V : List α) (v : α) (rid : Nat) (h1 : rid ≤ firstGE v V
   rw [scanB_eq _ _ _ (by omega)]
   congr 1; omega
 
+/-- the rewind keeps the scan's precondition when it held before (requests in chronological order) -/
+theorem rewind_of_le (T : List α) (t : α) (rid : Nat) (h : rid ≤ firstGE t T) :
+    ∃ r0, rewind T t rid = some r0 ∧ r0 ≤ firstGE t T := by
+  unfold rewind
+  by_cases h0 : rid = 0
+  · exact ⟨0, by simp [h0], Nat.zero_le _⟩
+  · rw [if_neg h0]
+    have hl := firstGE_le_length t T
+    have hlt : rid - 1 < T.length := by omega
+    rw [List.getElem?_eq_getElem hlt]
+    by_cases hv : t ≤ T[rid - 1]
+    · exact ⟨0, by simp [hv], Nat.zero_le _⟩
+    · exact ⟨rid, by simp [hv], h⟩
+
+/-- …and establishes it from any earlier position when the table is non-decreasing (requests in any order) -/
+theorem rewind_of_sorted (T : List α) (hT : T.Pairwise (· ≤ ·)) (t : α) (rid : Nat) (h : rid ≤ T.length) :
+    ∃ r0, rewind T t rid = some r0 ∧ r0 ≤ firstGE t T := by
+  unfold rewind
+  by_cases h0 : rid = 0
+  · exact ⟨0, by simp [h0], Nat.zero_le _⟩
+  · rw [if_neg h0]
+    have hlt : rid - 1 < T.length := by omega
+    rw [List.getElem?_eq_getElem hlt]
+    by_cases hv : t ≤ T[rid - 1]
+    · exact ⟨0, by simp [hv], Nat.zero_le _⟩
+    · refine ⟨rid, by simp [hv], le_firstGE t T rid h (fun j hj hjr => ?_)⟩
+      have hv' : T[rid - 1] < t := lt_of_not_ge hv
+      rcases Nat.lt_or_ge j (rid - 1) with hjl | hjl
+      · exact lt_of_le_of_lt (List.pairwise_iff_getElem.mp hT j (rid - 1) hj hlt hjl) hv'
+      · have : j = rid - 1 := by omega
+        subst this; exact hv'
+
 theorem pmin_eq_left (a b : α) (h : a ≤ b) : pmin a b = a := by
   unfold pmin; rw [if_neg (not_lt_of_ge h)]
 
@@ -251,22 +283,17 @@ theorem temporalLoop_eq (P : List (Fix α)) (tini tfin : α) (hn : 0 < P.length)
       have h1' : tini < t := lt_of_not_ge h1
       by_cases h2 : tfin < t
       · rw [if_pos h2]
-        have : (t :: rest).filter (inRange tini tfin) = [] := by
-          rw [List.filter_eq_nil_iff]
-          intro a ha
-          have hta : t ≤ a := by
-            rcases List.mem_cons.mp ha with h | h
-            · rw [h]
-            · exact hle a h
-          have : ¬ a ≤ tfin := not_le_of_gt (lt_of_lt_of_le h2 hta)
-          simp [inRange, this]
-        rw [this]; rfl
+        rw [ih rid hrest (fun t' ht' => inv t' (List.mem_cons_of_mem _ ht'))]
+        have : inRange tini tfin t = false := by simp [inRange, not_le_of_gt h2]
+        simp [this]
       · rw [if_neg h2]
         have h2' : t ≤ tfin := le_of_not_gt h2
         have hlen : 0 < (P.map (·.t)).length := by simpa using hn
         obtain ⟨hr1, hrlt, hlo, hhi⟩ := firstGE_bracket (P.map (·.t)) t hlen (by rw [hini]; exact h1')
           (by rw [hfin]; exact h2')
-        have hadv := advance_eq (P.map (·.t)) t rid (inv t List.mem_cons_self h1') hrlt
+        obtain ⟨r0, hrw, hr0⟩ := rewind_of_le (P.map (·.t)) t rid (inv t List.mem_cons_self h1')
+        rw [hrw]
+        have hadv := advance_eq (P.map (·.t)) t r0 hr0 hrlt
         have hrP : firstGE t (P.map (·.t)) < P.length := by simpa using hrlt
         have hbr := bracket_ok P (P.map (·.t)) t (firstGE t (P.map (·.t))) hr1 hrP hrlt
           (lt_of_lt_of_le hlo hhi)
@@ -281,6 +308,49 @@ theorem temporalLoop_eq (P : List (Fix α)) (tini tfin : α) (hn : 0 < P.length)
         simp only [sampleT, lerpFix, fixAt_eq P _ hrP, fixAt_eq P (firstGE t (P.map (·.t)) - 1) (by omega)]
         rw [combine_eq _ _ t _ _ hb, combine_eq _ _ t _ _ hb, combine_eq _ _ t _ _ hb]
 
+
+/-- requests in ANY order, on a track whose stamps never decrease: one sample per instant of `(tini, tfin]` -/
+theorem temporalLoop_eq_any (P : List (Fix α)) (tini tfin : α) (hn : 0 < P.length)
+    (hini : (P.map (·.t))[0]'(by simpa using hn) = tini)
+    (hfin : (P.map (·.t))[(P.map (·.t)).length - 1]'(by simp; omega) = tfin)
+    (hT : (P.map (·.t)).Pairwise (· ≤ ·))
+    (ref : List α) (rid : Nat) (hrid : rid ≤ P.length) :
+    temporalLoop P (P.map (·.t)) tini tfin ref rid
+      = .ok ((ref.filter (inRange tini tfin)).map (sampleT P)) := by
+  induction ref generalizing rid with
+  | nil => simp [temporalLoop]
+  | cons t rest ih =>
+    unfold temporalLoop
+    by_cases h1 : t ≤ tini
+    · rw [if_pos h1, ih rid hrid]
+      have : inRange tini tfin t = false := by simp [inRange, not_lt_of_ge h1]
+      simp [this]
+    · rw [if_neg h1]
+      have h1' : tini < t := lt_of_not_ge h1
+      by_cases h2 : tfin < t
+      · rw [if_pos h2, ih rid hrid]
+        have : inRange tini tfin t = false := by simp [inRange, not_le_of_gt h2]
+        simp [this]
+      · rw [if_neg h2]
+        have h2' : t ≤ tfin := le_of_not_gt h2
+        have hlen : 0 < (P.map (·.t)).length := by simpa using hn
+        obtain ⟨hr1, hrlt, hlo, hhi⟩ := firstGE_bracket (P.map (·.t)) t hlen (by rw [hini]; exact h1')
+          (by rw [hfin]; exact h2')
+        obtain ⟨r0, hrw, hr0⟩ := rewind_of_sorted (P.map (·.t)) hT t rid (by simpa using hrid)
+        rw [hrw]
+        have hadv := advance_eq (P.map (·.t)) t r0 hr0 hrlt
+        have hrP : firstGE t (P.map (·.t)) < P.length := by simpa using hrlt
+        have hbr := bracket_ok P (P.map (·.t)) t (firstGE t (P.map (·.t))) hr1 hrP hrlt
+          (lt_of_lt_of_le hlo hhi)
+        have hrec := ih (firstGE t (P.map (·.t))) (le_of_lt hrP)
+        simp only [hadv, hbr, hrec]
+        have hin : inRange tini tfin t = true := by simp [inRange, h1', h2']
+        simp only [List.filter_cons, hin, if_true, List.map_cons]
+        congr 2
+        have hb := lt_of_lt_of_le hlo hhi
+        simp only [List.getElem_map] at hb ⊢
+        simp only [sampleT, lerpFix, fixAt_eq P _ hrP, fixAt_eq P (firstGE t (P.map (·.t)) - 1) (by omega)]
+        rw [combine_eq _ _ t _ _ hb, combine_eq _ _ t _ _ hb, combine_eq _ _ t _ _ hb]
 
 /-- with non-decreasing abscissas the bracket is unique: any leg `k` with `V[k−1] < v ≤ V[k]` is the one
 the scan designates -/
@@ -512,6 +582,14 @@ theorem resampleTemporal_instants (trunc : α → Int) (P : List (Fix α)) (hn :
   unfold resampleTemporal
   simp only [head?_times P hn, getLast?_times P hn, prepareTimes]
   exact temporalLoop_eq P _ _ hn (by simp) (by simp) ref 0 href (fun _ _ _ => Nat.zero_le _)
+
+theorem resampleTemporal_instants_any (trunc : α → Int) (P : List (Fix α)) (hn : 0 < P.length)
+    (hT : (P.map (·.t)).Pairwise (· ≤ ·)) (ref : List α) :
+    resampleTemporal trunc P (.instants ref)
+      = .ok ((ref.filter (inRange (P[0]).t (P[P.length - 1]).t)).map (sampleT P)) := by
+  unfold resampleTemporal
+  simp only [head?_times P hn, getLast?_times P hn, prepareTimes]
+  exact temporalLoop_eq_any P _ _ hn (by simp) (by simp) hT ref 0 (Nat.zero_le _)
 
 /-- the instants requested by a numeric step that fall in `(tini, tfin]` are `tini + δ, …, tini + Kδ` -/
 theorem filter_progression (tini tfin δ : α) (hδ : 0 < δ) (K : Nat) (hK : tini + (K : α) * δ ≤ tfin) :
